@@ -103,6 +103,9 @@ def _bool_expr(node, names, ty="Int", rename=None):
 
 
 def _int_term(node, names, ty="Int", rename=None):
+    if isinstance(node, ast.Subscript) and isinstance(node.value, ast.Name) and isinstance(node.slice, ast.Constant) \
+            and (node.value.id, node.slice.value) in (rename or {}):
+        return rename[(node.value.id, node.slice.value)]
     if isinstance(node, ast.Name) and node.id in names:
         return (rename or {}).get(node.id, node.id)
     if isinstance(node, ast.Constant) and isinstance(node.value, int) and not isinstance(node.value, bool):
@@ -190,6 +193,39 @@ def hard_edges_guard(tree):
     if guard is None or k_loop is None:
         raise T.TranslateError("create_attribute(\"hard_edges\") / `for f in self.faces` not found")
     return {"guard": guard, "name": name, "flags_before": k_create < k_loop, "empty_first": empty_first}
+
+
+# ------------------------------------------------------------------------------------------------------------
+def completion_skip_guard(tree):
+    """_complete_edges_from_faces: inside the loop over the face sides, `edge = keyify(f[i], f[(i+1)%nf])` then
+    `if <test over edge[0], edge[1], N>: continue` BEFORE the membership test; `N = len(self.vertices)`"""
+    fn = T.find_def(tree, "RawMeshData._complete_edges_from_faces")
+    bound = None
+    for st in fn.body:
+        if isinstance(st, ast.Assign) and isinstance(st.targets[0], ast.Name) and isinstance(st.value, ast.Call) \
+                and isinstance(st.value.func, ast.Name) and st.value.func.id == "len" and _is_attr(st.value.args[0], "self", "vertices"):
+            bound = st.targets[0].id
+    for outer in fn.body:
+        if not (isinstance(outer, ast.For) and _is_attr(outer.iter, "self", "faces")): continue
+        for inner in outer.body:
+            if not isinstance(inner, ast.For): continue
+            var, k_skip, k_member, test = None, None, None, None
+            for k, st in enumerate(inner.body):
+                if isinstance(st, ast.Assign) and isinstance(st.targets[0], ast.Name) and isinstance(st.value, ast.Call) \
+                        and isinstance(st.value.func, ast.Attribute) and st.value.func.attr == "keyify":
+                    var = st.targets[0].id
+                elif isinstance(st, ast.If) and len(st.body) == 1 and isinstance(st.body[0], ast.Continue) and not st.orelse:
+                    k_skip, test = k, st.test
+                elif isinstance(st, ast.If) and isinstance(st.test, ast.Compare) and isinstance(st.test.ops[0], ast.NotIn):
+                    k_member = k
+            if var is None or k_member is None:
+                raise T.TranslateError("side loop: `edge = keyify(...)` / `if edge not in edge_set` not recognised")
+            if k_skip is None or bound is None:
+                raise T.TranslateError("side loop: no `if <degenerate side>: continue` guard (or no `N = len(self.vertices)`)")
+            if k_skip > k_member:
+                raise T.TranslateError("the degenerate-side guard comes after the edge was appended")
+            return _bool_expr(test, {bound}, "Int", {(var, 0): "a", (var, 1): "b", bound: "N"})
+    raise T.TranslateError("loop over the sides of the faces not found")
 
 
 # ------------------------------------------------------------------------------------------------------------
@@ -450,6 +486,9 @@ def translate_structure():
     def s_hard():
         out["hard"] = hard_edges_guard(md); return out["hard"]
 
+    def s_skip():
+        out["skip"] = completion_skip_guard(md); return {"skip_if": out["skip"]}
+
     def s_corner():
         out["corner"] = corner_appends(md, dc); return out["corner"]
 
@@ -471,6 +510,7 @@ def translate_structure():
     run("mesh_data.py:prepare (ordered steps, config guards, _prepared guard first)", s_prepare)
     run("mesh_data.py:_prepare_edges.is_valid (validity predicate: operators and bounds)", s_valid)
     run("mesh_data.py:_complete_edges_from_faces (hard_edges guard, flags before completion)", s_hard)
+    run("mesh_data.py:_complete_edges_from_faces (degenerate sides are skipped before they are stored)", s_skip)
     run("mesh_data.py/_data_container.py: corner append argument order and routing", s_corner)
     run("mesh_data.py:_generate_face_corners/_generate_cell_corners/_generate_cell_faces (regeneration criteria, resets)", s_guards)
     run("mesh_data.py:_compute_dimensionality (if/elif chain)", s_dim)
@@ -495,6 +535,8 @@ def translate_structure():
     b += "def hardGuard : HardGuard := HardGuard.%s\ndef hardAttrName : String := %s\n" % (hard["guard"], _lstr(hard["name"]))
     b += "def hardFlagsBeforeCompletion : Bool := %s\ndef emptyFacesReturnFirst : Bool := %s\n\n" % (
         str(bool(hard["flags_before"])).lower(), str(bool(hard["empty_first"])).lower())
+    b += "/-- the side `(a, b) = keyify(...)` of a face is skipped by the completion when (verbatim, `N = len(self.vertices)`) -/\n"
+    b += "def completionSkips (a b N : Int) : Bool := %s\n\n" % out.get("skip", "false")
     b += "/-- argument roles of `face_corners.append(·,·)` / `cell_corners.append(·,·)`, routing of the parameters of\n`CornerDataContainer.append` to `_elem` / `_adj`, what the two direct appends of `_generate_cell_faces` receive -/\n"
     b += "def faceCornerArgs : List CornerArg := [%s]\n" % ", ".join("CornerArg." + r for r in corner["face"])
     b += "def cellCornerArgs : List CornerArg := [%s]\n" % ", ".join("CornerArg." + r for r in corner["cell"])
